@@ -65,6 +65,22 @@ func (c *clock) tick(k string) {
 	c.n++
 }
 
+// crashNow makes this very moment the crash instant (between two operations, like any other).
+func (c *clock) crashNow(kind string) {
+	c.mu.Lock()
+	defer c.mu.Unlock()
+	if c.crashed {
+		return
+	}
+	c.crashed = true
+	c.atKind = kind
+	c.body.Lock()
+	if c.onCrash != nil {
+		c.onCrash()
+	}
+	c.body.Unlock()
+}
+
 func (c *clock) isCrashed() bool {
 	c.mu.Lock()
 	defer c.mu.Unlock()
